@@ -340,11 +340,37 @@ def through_expr_helpers(mod, fn, expr, depth=3):
     return T().visit(copy.deepcopy(expr))
 
 
-def _returned_name(fi, fn, allow=()):
-    """Name of the local object every return statement returns (also through
-    np.array(x) / np.asarray(x) / list(x)); None if not uniform."""
+def guard_atoms(mod, fn, fi, stmt, within):
+    """The path condition of `stmt` (see path_condition) as a flat list of
+    atoms - Cmp objects and ('expr', node, polarity) triples - after expansion
+    of temporaries (`flag = <test>; if not flag:`) and of one-expression
+    predicate helpers in every test.  None: an operand may be rebound between
+    test and statement, or a test is a disjunction under its polarity."""
+    pc = path_condition(fi, stmt, within)
+    if pc is None:
+        return None
+    out = []
+    for t, pol, _ in pc:
+        e = canon(through_expr_helpers(mod, fn, xp(fi, t)))
+        c = conjuncts(e, pol)
+        if c is None:
+            return None
+        out += c
+    return out
+
+
+def atom_text(a):
+    if isinstance(a, Cmp):
+        return repr(a)
+    return ('%s' if a[2] else 'not %s') % u(a[1])
+
+
+def _returned_name(fi, fn, allow=(), rets=None):
+    """Name of the local object every return statement (of `rets`, default:
+    all) returns (also through np.array(x) / np.asarray(x) / list(x)); None if
+    not uniform."""
     names = set()
-    for r in returns_of(fn):
+    for r in (returns_of(fn) if rets is None else rets):
         if r.value is None:
             return None
         v = canon(r.value)
@@ -399,8 +425,114 @@ def d1_metric_arg_order(ck):
                'the metric takes (many items, one item): while iterating over `%s` the '
                'call must be %s(%s, %s); swapped arguments make md.rmsd-style metrics '
                'return distances to the wrong reference' % (coll, metric, other, sorted(elems, key=len)[0]))
+        if ok and coll == data:
+            _d1_exchanged_roles_guard(ck, mod, fn, fi, c, data, centers, metric)
     ck.floor(rule, n, 2, 'metric calls in assign_to_nearest_center')
     _d1_init(ck, mod, fn, fi, ps, loops_with_metric)
+
+
+# attributes only an mdtraj.Trajectory-like object has (neither ndarray nor list/tuple)
+_TRAJ_ATTRS = {'xyz', 'topology', 'top', 'n_atoms', 'n_residues', 'unitcell_vectors', 'unitcell_lengths', 'superpose'}
+_TRAJ_TYPES = {'md.Trajectory', 'mdtraj.Trajectory', 'Trajectory', 'md.core.trajectory.Trajectory',
+               'mdtraj.core.trajectory.Trajectory'}
+_SIZE_PATS = ('len(_X)', '_X.shape[0]', '_X.shape', '_X.size', '_X.__len__()', 'np.size(_X)', 'np.shape(_X)[0]',
+              '_X.n_frames')
+
+
+def _kind_atom(a, name):
+    """What a path-condition atom says about the KIND of object `name` holds:
+    'traj'  - it is a trajectory-like object (duck test on a trajectory-only
+              attribute, isinstance of the trajectory class only);
+    'wide'  - a type test that also lets ndarrays / sequences through;
+    'size'  - says nothing about the kind (pure length / shape comparison, or
+              `name` does not occur);
+    'unknown' - anything else."""
+    def types_of(t):
+        return [ct(e) for e in t.elts] if isinstance(t, (ast.Tuple, ast.List)) else [ct(t)]
+    if isinstance(a, Cmp):
+        sides = (a.lhs, a.rhs)
+        for x, y in (sides, sides[::-1]):
+            m = match('type(_X)', canon(x))
+            if m is not None and ct(m['_X']) == name:
+                if a.op in (ast.Is, ast.Eq):
+                    return 'traj' if ct(y) in _TRAJ_TYPES else 'wide'
+                return 'wide' if ct(y) in _TRAJ_TYPES else 'unknown'
+
+        def size_only(e):
+            """`name` occurs in e only as the operand of a length / shape reduction"""
+            e = canon(e)
+            for pat in _SIZE_PATS:
+                m = match(pat, e)
+                if m is not None and isinstance(m['_X'], ast.Name):
+                    return True
+            if isinstance(e, ast.Name):
+                return e.id != name
+            if isinstance(e, ast.Constant):
+                return True
+            if isinstance(e, ast.BinOp):
+                return size_only(e.left) and size_only(e.right)
+            if isinstance(e, ast.Call) and call_name(e) in ('int', 'max', 'min') and not e.keywords:
+                return all(size_only(x) for x in e.args)
+            return name not in names_loaded(e)
+        return 'size' if size_only(a.lhs) and size_only(a.rhs) else 'unknown'
+    _, e, pol = a
+    if isinstance(e, ast.Call) and not e.keywords and len(e.args) == 2 and ct(e.args[0]) == name:
+        cn = call_name(e)
+        if cn == 'hasattr' and isinstance(const_value(e.args[1], default=None), str):
+            if not pol:
+                return 'wide'       # everything WITHOUT the attribute: arrays, lists
+            return 'traj' if const_value(e.args[1]) in _TRAJ_ATTRS else 'unknown'
+        if cn == 'isinstance':
+            ts = types_of(e.args[1])
+            if pol:
+                return 'traj' if all(t in _TRAJ_TYPES for t in ts) else 'wide'
+            return 'wide' if all(t in _TRAJ_TYPES for t in ts) else 'unknown'
+    return 'unknown' if name in names_loaded(e) or not isinstance(e, ast.Constant) else 'size'
+
+
+def _d1_exchanged_roles_guard(ck, mod, fn, fi, call, data, centers, metric):
+    """The metric's contract is metric(<block of data>, <one centre>) (doc:
+    `params=(trajectory, cluster_centers[i])`): d(frames, centre).  A sweep
+    over the FRAMES that calls metric(<all centres>, <one frame>) evaluates the
+    metric with the two roles exchanged: it minimises and reports d(centre,
+    frame).  That is the distance asked for only for symmetric metrics, and it
+    needs centres the metric accepts as a block; the pinned function therefore
+    enters that sweep only for trajectory-like centres (duck test on `.xyz`:
+    the RMSD family).  Necessary condition decided here: the path condition of
+    the exchanged-role call restricts the centres to a trajectory-like object.
+    A guard that also admits feature arrays / sequences (or no kind test at
+    all) sends user metrics on feature data - which need not be symmetric -
+    down the exchanged call."""
+    rule = 'C10.D1.exchanged-roles'
+    F = 'assign_to_nearest_center'
+    s = fi.stmt(call)
+    construct = 'guard of the frame-wise sweep calling %s(<all centres>, <one frame>)' % metric
+    if assigns_to(fn, centers):
+        ck.missing(rule, 'the centres parameter `%s` is rebound in %s' % (centers, F))
+        return
+    atoms = guard_atoms(mod, fn, fi, s, fn) if s is not None else None
+    if atoms is None:
+        ck.missing(rule, 'path condition of the exchanged-role metric call at %s is not a conjunction of tests' % mod.loc(call))
+        return
+    kinds = [(_kind_atom(a, centers), a) for a in atoms]
+    cond = ' and '.join(atom_text(a) for a in atoms) or '<unconditional>'
+    if any(k == 'traj' for k, _ in kinds):
+        ck.ok(rule, mod, s, construct, 'reached only for trajectory-like centres: %s' % cond)
+        return
+    unk = [a for k, a in kinds if k == 'unknown']
+    if unk:
+        ck.missing(rule, 'guard of the exchanged-role metric call at %s not recognised as a test of the kind of `%s`: %s' % (
+            mod.loc(call), centers, atom_text(unk[0])[:120]))
+        return
+    wide = [a for k, a in kinds if k == 'wide']
+    ck.bad(rule, mod, s, F, construct,
+           'the frame-wise sweep calls %s(%s, <frame>) - data and centre roles exchanged with respect to the contract '
+           '%s(<data>, <one centre>) - so it minimises and reports d(centre, frame); that equals the required d(frame, centre) only '
+           'for symmetric metrics and must stay restricted to trajectory-like centres (hasattr(%s, \'xyz\')). %s: feature arrays '
+           '(and whatever else passes) with a non-symmetric user metric now get the wrong distances and possibly another centre' % (
+               metric, centers, metric, centers,
+               ('the test `%s` also admits non-trajectory centres' % atom_text(wide[0])) if wide else
+               ('the path condition `%s` does not test the kind of `%s` at all' % (cond, centers))))
 
 
 _ALIASING = ('np.asarray(_C)', 'np.asarray(_C, dtype=_T)', 'np.asarray(_C, _T)', 'np.asanyarray(_C)',
@@ -465,6 +597,22 @@ def _d1_init(ck, mod, fn, fi, ps, loops):
     if not sweeps:
         ck.missing(rule, 'loops storing into the returned distance array `%s`' % name)
         return
+    # --- every way OUT of the function hands back the pair the sweeps filled, after a sweep: an exit the
+    #     commit / metric-argument obligations never looked at (a fast path with its own result) is not decided
+    from ..cfg import ENTRY
+    pairs = set()
+    for r in returns_of(fn):
+        v = r.value
+        if not (isinstance(v, ast.Tuple) and len(v.elts) == 2 and all(isinstance(e, ast.Name) for e in v.elts)):
+            ck.missing('C10.D1.exits', 'the exit at %s does not return the (labels, distances) arrays filled by the sweeps: %s' % (
+                mod.loc(r), u(r)[:120]))
+            continue
+        pairs.add((v.elts[0].id, v.elts[1].id))
+        if cfg.reachable(ENTRY, r, avoiding=sweeps):
+            ck.missing('C10.D1.exits', 'the exit at %s can be reached without passing through a sweep that fills `%s`: %s' % (
+                mod.loc(r), name, u(r)[:120]))
+    if len(pairs) > 1:
+        ck.missing('C10.D1.exits', 'the exits of %s return different pairs of arrays: %s' % (F, sorted(pairs)))
     by_site = {}
     for l in sweeps:
         ds = fi.rd.defs_at(l, name)
@@ -1235,7 +1383,7 @@ def _extremes_only(e, operands):
     return seen
 
 
-def _d4_result_size(ck, rule, mod, fn, fi, F, out, A, D):
+def _d4_result_size(ck, rule, mod, fn, fi, F, out, A, D, rets=None):
     """One entry per label PRESENT: the array the function returns is
     allocated once, with as many entries as there are distinct labels in the
     assignments (`len(np.unique(assignments))` & equivalent) - the callers
@@ -1246,7 +1394,7 @@ def _d4_result_size(ck, rule, mod, fn, fi, F, out, A, D):
     maximum does not occur (predict on new data that visits only some of the
     fitted clusters): the surplus entries keep the fill value - frame 0, which
     is not a member of those labels."""
-    rets = returns_of(fn)
+    rets = returns_of(fn) if rets is None else rets
     sites = set()
     for r in rets:
         ds = fi.rd.defs_at(r, out)
@@ -1314,6 +1462,213 @@ def _d4_result_size(ck, rule, mod, fn, fi, F, out, A, D):
     ck.missing(rule, 'size of the returned index array `%s` not recognised as the number of labels present: %s' % (out, ct(N)[:120]))
 
 
+_INVARIANT_CALLS = _EXTREME_CALLS | {'np.arange', 'range', 'list', 'tuple', 'np.zeros', 'np.ones', 'np.empty', 'np.full', 'np.array',
+                                     'np.unique', 'set', 'sorted', 'np.sort', 'np.bincount', 'np.sum', 'sum', 'np.intp', 'np.int64'}
+_INVARIANT_METHODS = _EXTREME_METHODS | {'sum', 'mean', 'astype', 'tolist'}
+
+
+def _order_blind(e, operands):
+    """`e` depends on the operands (the per-frame label / distance arrays) only
+    through quantities that are the same for every reordering of the frames:
+    length, shape, extreme values, the set / sorted sequence / histogram of the
+    values - combined by arithmetic, allocation (`np.arange`, `np.zeros`, ...)
+    and integer constants.  Its value is the same for `A` and for `A[perm]`."""
+    for x in ast.walk(e):
+        if isinstance(x, ast.Name):
+            if x.id not in operands and x.id not in ('np', 'numpy', 'len', 'int', 'max', 'min', 'abs', 'range', 'list',
+                                                     'tuple', 'set', 'sorted', 'sum'):
+                return False
+        elif isinstance(x, ast.Call):
+            cn = (call_name(x) or '').replace('numpy.', 'np.')
+            if any(k.arg not in ('axis', 'dtype') for k in x.keywords):
+                return False
+            if cn in _INVARIANT_CALLS:
+                continue
+            if isinstance(x.func, ast.Attribute) and x.func.attr in _INVARIANT_METHODS:
+                continue
+            return False
+        elif isinstance(x, ast.Attribute):
+            if x.attr not in ({'shape', 'size', 'dtype', 'ndim'} | _INVARIANT_METHODS) and \
+                    not (isinstance(x.value, ast.Name) and x.value.id in ('np', 'numpy')):
+                return False
+        elif isinstance(x, ast.Constant):
+            if not isinstance(x.value, (int, str)) and x.value is not None:
+                return False
+        elif isinstance(x, ast.Subscript):
+            if not (isinstance(x.value, ast.Attribute) and x.value.attr == 'shape') and \
+                    not (isinstance(x.value, ast.Call) and (call_name(x.value) or '') in ('np.shape', 'numpy.shape')):
+                return False
+        elif not isinstance(x, (ast.BinOp, ast.UnaryOp, ast.operator, ast.unaryop, ast.expr_context, ast.Tuple, ast.List, ast.keyword)):
+            return False
+    # a bare operand (not under a reduction) is the array itself: order matters
+    bare = _bare_operands(e, operands)
+    return not bare
+
+
+def _bare_operands(e, operands):
+    """Occurrences of an operand name that are not the direct argument /
+    receiver of an order-blind reduction."""
+    out = []
+
+    def visit(x, covered):
+        if isinstance(x, ast.Name):
+            if x.id in operands and not covered:
+                out.append(x)
+            return
+        if isinstance(x, ast.Call):
+            cn = (call_name(x) or '').replace('numpy.', 'np.')
+            red = cn in _INVARIANT_CALLS and cn not in ('np.array', 'list', 'tuple', 'np.arange', 'range', 'np.zeros', 'np.ones',
+                                                         'np.empty', 'np.full', 'int', 'abs', 'np.asarray', 'np.intp', 'np.int64')
+            if isinstance(x.func, ast.Attribute) and not (cn in _INVARIANT_CALLS):
+                meth_red = x.func.attr in (_INVARIANT_METHODS - {'astype', 'tolist'})
+                visit(x.func.value, meth_red)
+            for a in x.args:
+                visit(a, red)
+            for k in x.keywords:
+                visit(k.value, False)
+            return
+        if isinstance(x, ast.Attribute):
+            visit(x.value, x.attr in ('shape', 'size', 'dtype', 'ndim'))
+            return
+        for c in ast.iter_child_nodes(x):
+            visit(c, False)
+    visit(e, False)
+    return out
+
+
+def _count_term(e, A, D, labelsets):
+    """A length expression as a function of the abstract input (n frames, k
+    distinct labels, m distances): returns f(n, k, m) or None."""
+    e = canon(e)
+    if isinstance(e, ast.Constant) and isinstance(e.value, int) and not isinstance(e.value, bool):
+        return lambda n, k, m, v=e.value: v
+    m_ = match('int(_X)', e)
+    if m_ is not None:
+        return _count_term(m_['_X'], A, D, labelsets)
+    for pat in ('len(_U)', '_U.shape[0]', '_U.size', '_U.__len__()', 'np.size(_U)', 'np.shape(_U)[0]'):
+        mm = match(pat, e)
+        if mm is not None:
+            t = ct(mm['_U'])
+            if t in (A, C('%s.ravel()' % A), C('np.asarray(%s)' % A), C('%s.flatten()' % A)):
+                return lambda n, k, m: n
+            if t in (D, C('np.asarray(%s)' % D)):
+                return lambda n, k, m: m
+            if t in labelsets:
+                return lambda n, k, m: k
+            return None
+    if isinstance(e, ast.BinOp) and isinstance(e.op, (ast.Add, ast.Sub, ast.Mult)):
+        l, r = _count_term(e.left, A, D, labelsets), _count_term(e.right, A, D, labelsets)
+        if l is None or r is None:
+            return None
+        op = {ast.Add: lambda a, b: a + b, ast.Sub: lambda a, b: a - b, ast.Mult: lambda a, b: a * b}[type(e.op)]
+        return lambda n, k, m: op(l(n, k, m), r(n, k, m))
+    return None
+
+
+_REL = {ast.Eq: lambda a, b: a == b, ast.NotEq: lambda a, b: a != b, ast.Lt: lambda a, b: a < b,
+        ast.LtE: lambda a, b: a <= b, ast.Gt: lambda a, b: a > b, ast.GtE: lambda a, b: a >= b}
+
+
+def _abstract_inputs(atoms, A, D):
+    """Exhaustive evaluation of a path condition over the FINITE abstract
+    domain (n = number of frames, k = number of distinct labels, m = number of
+    distances; 0 <= k <= n small, k == 0 iff n == 0): the list of abstract
+    inputs (n, k, m) under which the path is taken, plus the atoms that are
+    `n == k` tests.  None when an atom is not a comparison of such counts (or
+    mentions a constant beyond the enumerated range)."""
+    labelsets = _label_set_forms(A)
+    preds, eq_nk, big = [], False, 0
+    for a in atoms:
+        if isinstance(a, Cmp):
+            l, r = _count_term(a.lhs, A, D, labelsets), _count_term(a.rhs, A, D, labelsets)
+            if l is None or r is None or a.op not in _REL:
+                return None
+            preds.append(lambda n, k, m, l=l, r=r, op=_REL[a.op]: op(l(n, k, m), r(n, k, m)))
+            if a.op is ast.Eq and {(l(5, 3, 7), l(4, 2, 9)), (r(5, 3, 7), r(4, 2, 9))} == {(5, 4), (3, 2)}:
+                eq_nk = True
+            for side in (a.lhs, a.rhs):
+                for c in ast.walk(side):
+                    if isinstance(c, ast.Constant) and isinstance(c.value, int):
+                        big = max(big, abs(c.value))
+        else:
+            t = _count_term(a[1], A, D, labelsets)
+            if t is None:
+                return None
+            preds.append(lambda n, k, m, t=t, pol=a[2]: (t(n, k, m) != 0) == pol)
+    if big > 12:
+        return None
+    top = max(5, big + 3)
+    sat = [(n, k, m) for n in range(top + 1) for k in (range(1, n + 1) if n else (0,)) for m in range(top + 1)
+           if all(p(n, k, m) for p in preds)]
+    return sat, eq_nk
+
+
+def _d4_exits(ck, rule, mod, fn, fi, F, A, D, early):
+    """Every way OUT of find_cluster_centers is the result of the per-label
+    search.  An exit that does not come after the per-label loop (a fast path)
+    must still return, at position j, a member frame of the j-th distinct
+    label with the smallest distance.  Decided for the class of exits whose
+    value is ORDER-BLIND (depends on the labels / distances only through
+    length, extremes, set of values: `np.arange(len(assignments))`,
+    `np.zeros(1, int)`, ...) on a path whose condition is order-blind too
+    (comparisons of the number of frames / of distinct labels): if the path
+    admits an input with two or more frames, exchanging two frames that carry
+    different labels (or, with a single label, moving the closest frame) leaves
+    condition and returned value unchanged but changes the set of correct
+    answers - the value is wrong for one of the two inputs.  `argsort` of the
+    labels is accepted under `#labels == #frames` (every frame alone in its
+    label: entry j is the frame carrying the j-th smallest label).  Any other
+    exit is not decided (incomplete), never accepted silently."""
+    for r in early:
+        if r.value is None:
+            ck.bad(rule, mod, r, F, 'exit of %s before the per-label search' % F,
+                   'the function returns None at %s instead of the array of per-label frame indices' % mod.loc(r))
+            continue
+        V = canon(xp(fi, r.value))
+        atoms = guard_atoms(mod, fn, fi, r, fn)
+        cond = ' and '.join(atom_text(a) for a in (atoms or [])) or '<unconditional>'
+        construct = 'exit of %s before the per-label search' % F
+        dom = _abstract_inputs(atoms, A, D) if atoms is not None else None
+        if dom is None:
+            ck.missing(rule, 'exit at %s (`%s` when %s): path condition is not a comparison of frame / label counts' % (
+                mod.loc(r), u(r)[:80], cond[:160] if atoms is not None else '<not a conjunction>'))
+            continue
+        sat, eq_nk = dom
+        if not sat:
+            ck.ok(rule, mod, r, construct + ': ' + u(r)[:100], 'path condition `%s` is unsatisfiable for count values: dead exit' % cond)
+            continue
+        W = V
+        for wrap in ('np.asarray(_X)', 'np.asarray(_X, dtype=_T)', '_X.astype(_T)', 'np.array(_X)', '_X.copy()'):
+            mm = match(wrap, W)
+            if mm is not None:
+                W = mm['_X']
+        sorts = match('_X.argsort()', W) or match('_X.argsort(kind=_K)', W) or match('np.argsort(_X, kind=_K)', W)
+        if sorts is not None and ct(sorts['_X']) in (A, C('np.asarray(%s)' % A)):
+            if eq_nk:
+                ck.ok(rule, mod, r, construct + ': ' + u(r)[:100],
+                      'every frame is alone in its label (%s): entry j is the frame carrying the j-th smallest label' % cond)
+            else:
+                ck.missing(rule, 'exit at %s returns argsort of the labels on a path (%s) that does not state #labels == #frames' % (mod.loc(r), cond))
+            continue
+        if _order_blind(V, {A, D}):
+            wit = [s for s in sat if s[0] >= 2]
+            if wit:
+                n, k, m = wit[0]
+                ck.bad(rule, mod, r, F, construct,
+                       'the exit `%s` taken when `%s` returns a value that depends on `%s` / `%s` only through order-blind quantities '
+                       '(lengths, extremes, set of values): it is the same for every reordering of the frames, and so is the condition. '
+                       'The path admits e.g. %d frames with %d distinct label(s); entry j of the result must be a member frame of the '
+                       'j-th smallest label (with smallest distance), which changes when two frames carrying different labels are '
+                       'exchanged (labels [2, 0, 1]: the correct result is argsort = [1, 2, 0], not [0, 1, 2]) - the value is wrong for '
+                       'one of the two orderings. The per-label search (members[argmin(distances[members])]) must not be bypassed' % (
+                           u(r)[:100], cond[:200], A, D, n, k))
+            else:
+                ck.missing(rule, 'exit at %s for inputs with at most one frame (%s) is not verified: %s' % (mod.loc(r), cond, u(r)[:80]))
+            continue
+        ck.missing(rule, 'exit at %s (`%s` when %s) is not related to the per-label search by any accepted form' % (
+            mod.loc(r), u(r)[:80], cond[:160]))
+
+
 def d4_find_centers(ck):
     rule = 'C10.D4.find-centers'
     F = 'find_cluster_centers'
@@ -1322,10 +1677,19 @@ def d4_find_centers(ck):
     ck.analysed(mod, fn)
     fi = finfo(mod, fn)
     A, D = params(fn)[:2]
-    out = _returned_name(fi, fn)
-    if out is not None:
-        _d4_result_size(ck, rule + '.one-per-label', mod, fn, fi, F, out, A, D)
     fors = [l for l in walk_local(fn) if isinstance(l, ast.For)]
+    # the exits that come after (or out of) a loop return the result of the per-label search; exits that no loop
+    # reaches are fast paths, decided on their own by _d4_exits
+    rets = returns_of(fn)
+    main = [r for r in rets if any(fi.cfg.reachable(l, r) for l in fors)]
+    early = [r for r in rets if not any(r is x for x in main)]
+    if fors and main and early:
+        _d4_exits(ck, rule + '.exits', mod, fn, fi, F, A, D, early)
+    else:
+        main = rets
+    out = _returned_name(fi, fn, rets=main)
+    if out is not None:
+        _d4_result_size(ck, rule + '.one-per-label', mod, fn, fi, F, out, A, D, main)
     if not fors:
         ck.missing(rule, 'per-label loop')
         return
